@@ -38,7 +38,7 @@ func serverID(at time.Time, typ int64, salt int64) int64 {
 func TestC07Conn(t *testing.T) {
 	st := pbt.NewStats("TestC07Conn")
 	defer st.Flush()
-	softKinds := []string{"valid", "valid", "valid", "replay", "replay-reencrypted", "client-typed", "type-2", "old-301", "old-299", "future-31", "future-29", "wrong-session", "lower-fresh"}
+	softKinds := []string{"valid", "valid", "valid", "replay", "replay-reencrypted", "session-created", "client-typed", "type-2", "old-301", "old-299", "future-31", "future-29", "wrong-session", "lower-fresh"}
 	hardKinds := []string{"pad-0", "pad-4", "pad-8", "pad-12", "pad-1024", "pad-1040", "len-not-mult-4", "len-neg-4", "len-neg-8", "len-neg-512", "len-neg-1", "len-min-int32", "wrong-key", "flipped-bit", "none"}
 	rapid.Check(t, func(t *rapid.T) {
 		rnd, seed := pbt.DrawStream(t, "rnd")
@@ -108,6 +108,19 @@ func TestC07Conn(t *testing.T) {
 					}
 					// same msg id, new payload tag: must still be rejected by id
 					id = prev.id
+				case "session-created":
+					// a valid service message that announces a (new) server session: it
+					// changes neither key nor session id, so nothing accepted before it
+					// becomes acceptable again
+					body = pbt.NewSessionCreated(id-4, int64(tag), 0x77)
+					dataLen = int32(len(body))
+					pad = pbt.PadFor(len(body))
+					wire := ref.EncryptMessageLen(k, true, 0x5a17, sess, id, 1, dataLen, append(append([]byte(nil), body...), pbt.Padding(pad)...))
+					descr = append(descr, fmt.Sprintf("session-created(#%d)", tag))
+					_ = f.peer.WriteFrame(wire)
+					synctest.Wait()
+					seen[id] = true
+					return
 				case "client-typed":
 					id = serverID(now, 0, int64(tag))
 					expect = false
